@@ -143,12 +143,18 @@ def run(ctx, col: Collector):
                         if ev.kind == 'test' and ev.outcome is True:
                             for c in ast.walk(ev.node):
                                 if isinstance(c, ast.Call) and norm(c.func) in ('re.fullmatch',) and len(c.args) == 2 and isinstance(c.args[0], ast.Constant) \
-                                        and norm(c.args[1]) == p0 and bare_word_pattern(c.args[0].value):
-                                    okbare = True
+                                        and norm(c.args[1]) == p0:
+                                    if bare_word_pattern(c.args[0].value, *reader_word):
+                                        okbare = True
+                                    elif bare_word_pattern(c.args[0].value):
+                                        bare_mismatch.append((t.qualname, c.args[0].value))
                     if okbare:
                         continue
                 return False
             return quoted_any
+        words_ = [a for a in flatten_alt(gm.var('generic', 'name'), ('first', 'or')) if a.kind == 'word']
+        reader_word = (words_[0].a['init'], words_[0].a['body']) if len(words_) == 1 else (None, None)
+        bare_mismatch: List[Tuple[str, str]] = []
         for s in ti.all_sinks():
             if not s.fn.module.startswith(DBML):
                 continue
@@ -184,11 +190,49 @@ def run(ctx, col: Collector):
                         if 'get_full_name_for_sql' in wr or 'get_full_name_for_dbml' in wr:
                             col.ok('C02-ident', cons, 'an enum type is written by its quoted qualified name', node=f.node, file=f.fn.file)
                             continue
+                    if not (quoted or helper) and bare_mismatch:
+                        hq, hp = bare_mismatch[0]
+                        off = ''.join(sorted(c for c in 'ABCDEFGHIJKLMNOPQRSTUVWXYZabcdefghijklmnopqrstuvwxyz0123456789_' if reader_word[0] is not None and c not in (reader_word[0] & reader_word[1])))
+                        col.bad('C02-ident', cons, f'{label} is written bare by {hq} whenever it matches `{hp}`, but the reader\'s bare identifier token does not accept '
+                                f'{off[:20]!r} in every position (first characters {len(reader_word[0] or ())}, later characters {len(reader_word[1] or ())}): such a name is written '
+                                f'without quotes and cannot be read back', node=f.node, file=f.fn.file)
+                        continue
                     col.check(quoted or helper, 'C02-ident', cons, f'{label} is written double-quoted',
                               f'{label} is written bare by {f.fn.qualname} ({f.where}, template `{f.template[:50]}`): the reader takes a bare word over [A-Za-z0-9_] only, '
                               f'so a name with a space, dot or other punctuation (legal when quoted in the source) makes the rendered DBML unparseable or parse '
                               f'differently', node=f.node, file=f.fn.file)
         col.floor('C02-ident', 'identifier sinks', n, 18)
+        # a helper that writes a name WITHOUT quotes when it matches a pattern: every string of that pattern must be a bare identifier for the reader
+        # (each character allowed in first and in later position of the reader's bare-word token)
+        from ..paths import function_paths as _fp
+        nb = 0
+        for hf in sorted(idx.funcs.values(), key=lambda f: f.id):
+            if not hf.module.startswith(DBML) or not isinstance(hf.node, ast.FunctionDef) or not hf.node.args.args:
+                continue
+            p0 = hf.node.args.args[0].arg
+            for path in _fp(hf.node, unroll=1):
+                last = path[-1]
+                if last.kind != 'return' or last.node is None or not (isinstance(last.node.value, ast.Name) and last.node.value.id == p0):
+                    continue
+                pats = [c.args[0] for ev in path if ev.kind == 'test' and ev.outcome is True for c in ast.walk(ev.node)
+                        if isinstance(c, ast.Call) and norm(c.func) in ('re.fullmatch', 're.match') and len(c.args) == 2 and norm(c.args[1]) == p0]
+                if not pats:
+                    continue
+                full = any(isinstance(c, ast.Call) and norm(c.func) == 're.fullmatch' for ev in path if ev.kind == 'test' and ev.outcome is True for c in ast.walk(ev.node))
+                nb += 1
+                cons = f'{hf.qualname}:bare-pattern'
+                pc = pats[0]
+                if not (isinstance(pc, ast.Constant) and isinstance(pc.value, str)) or reader_word[0] is None:
+                    col.unk('C02-ident', cons, f'{hf.qualname} returns `{p0}` unquoted under `{norm(pc)[:40]}`; the pattern or the reader\'s bare token is not readable', node=last.node, file=hf.file)
+                elif bare_word_pattern(pc.value, *reader_word) and full:
+                    col.ok('C02-ident', cons, f'{hf.qualname} writes a name bare only when it fully matches `{pc.value}`, all of which the reader takes as a bare identifier', node=last.node, file=hf.file)
+                elif bare_word_pattern(pc.value) and full:
+                    off = ''.join(sorted(c for c in 'ABCDEFGHIJKLMNOPQRSTUVWXYZabcdefghijklmnopqrstuvwxyz0123456789_' if c not in (reader_word[0] & reader_word[1])))
+                    col.bad('C02-ident', cons, f'{hf.qualname} writes a name bare whenever it matches `{pc.value}`, but the reader\'s bare identifier token does not accept {off[:24]!r} in '
+                            f'every position (e.g. as first character): such a name is written without quotes and the rendered document cannot be parsed back', node=last.node, file=hf.file)
+                else:
+                    col.unk('C02-ident', cons, f'{hf.qualname} returns `{p0}` unquoted under the pattern `{pc.value}`, which is not a full match of a repeated character class', node=last.node, file=hf.file)
+        col.floor('C02-ident', 'bare-name helpers', nb, 1)
         # the reader's quoted-identifier token does no escape processing; if it did, the writer would have to escape too
         name_tok = gm.var('generic', 'name')
         for q in [a for a in flatten_alt(name_tok, ('first', 'or')) if a.kind == 'quoted']:
@@ -491,6 +535,14 @@ def run(ctx, col: Collector):
             if o.rule == 'C05-enum' or (o.rule == 'C05-schema'):
                 n += 1
                 col.obs.append(type(o)(col.prop, 'C02-binding', o.construct, o.status, o.msg, o.file, o.line, o.extra))
+        #  - an inline reference is written by the column get_refs() attributes it to: the selection must name exactly the column that declared it
+        #    (C05-owner), or a second column writes the reference again and the re-parsed database has one more reference
+        inline_readers = [fi.qualname for fi in idx.funcs.values() if fi.module.startswith('pydbml.renderer.dbml.')
+                          and any(isinstance(x, ast.Call) and isinstance(x.func, ast.Attribute) and x.func.attr == 'get_refs' for x in ast.walk(fi.node))]
+        for o in sub.obs:
+            if inline_readers and o.rule == 'C05-owner' and o.construct in ('Table.get_refs:filter', 'Column.get_refs:filter'):
+                n += 1
+                col.obs.append(type(o)(col.prop, 'C02-inline-owner', o.construct, o.status, o.msg + f' (read by {inline_readers})', o.file, o.line, o.extra))
         sub = ctx.sub('c01', col.prop)
         for o in sub.obs:
             if o.rule == 'C01-lex' and (o.construct.startswith(('expression', 'name:', 'string')) or o.status != 'discharged'):
@@ -525,8 +577,9 @@ def leading_keyword(x: G, owner: G) -> Optional[str]:
     return None
 
 
-def bare_word_pattern(pat: str) -> bool:
-    """The pattern matches only non-empty strings over [A-Za-z0-9_] (the reader's bare identifier)."""
+def bare_word_pattern(pat: str, first: Optional[frozenset] = None, rest: Optional[frozenset] = None) -> bool:
+    """The pattern matches only non-empty strings the reader's bare identifier token accepts: a repeated character class whose characters are all
+    allowed in first position and in later positions (default: [A-Za-z0-9_])."""
     import re._parser as sp
     import re._constants as sc
     try:
@@ -539,6 +592,8 @@ def bare_word_pattern(pat: str) -> bool:
     if lo < 1 or len(body) != 1 or body[0][0] is not sc.IN:
         return False
     allowed = set(map(ord, 'ABCDEFGHIJKLMNOPQRSTUVWXYZabcdefghijklmnopqrstuvwxyz0123456789_'))
+    if first is not None and rest is not None:
+        allowed = set(map(ord, first & rest))
     chars = set()
     for op, av in body[0][1]:
         if op is sc.LITERAL:
